@@ -37,17 +37,26 @@ def abstract_of(g):
     return [[name, [list(a["rhs"]) for a in alts]] for name, alts in g["rules"]]
 
 
-def render(g):
+def render(g, assigns=False, plain=False):
     import zlib
     # every fourth grammar (by content) is written with EMPTY references sprinkled between the
-    # symbols of some alternatives: they contribute nothing, the abstract grammar is the same
+    # symbols of some alternatives: they contribute nothing, the abstract grammar is the same.
+    # assigns=True (table stage): another quarter is written with named (x=Sym) and bool
+    # (x?=Sym) assignments on some symbols, a third quarter with both decorations: an assignment
+    # names a symbol for the builder, the grammar that is analysed is the same.
+    # plain=True: no decoration (the twin the decorated text is compared with)
     h = zlib.crc32(repr([(n, [a["rhs"] for a in alts]) for n, alts in g["rules"]]).encode())
-    srng = random.Random(h) if h % 4 == 0 else None
+    srng = random.Random(h) if (h % 4 == 0 or (assigns and h % 4 == 2)) and not plain else None
+    arng = random.Random(h + 1) if assigns and h % 4 in (1, 2) and not plain else None
     out = []
     for name, alts in g["rules"]:
         parts = []
         for a in alts:
             syms = list(a["rhs"])
+            if arng and syms and arng.random() < 0.6:
+                for k in range(len(syms)):
+                    if arng.random() < 0.5:
+                        syms[k] = "%s%d%s%s" % (arng.choice(["n", "f", "is_"]), k, arng.choice(["=", "?="]), syms[k])
             if srng and syms and srng.random() < 0.5:
                 for _ in range(srng.choice([1, 1, 2])):
                     syms.insert(srng.randint(0, len(syms)), "EMPTY")
